@@ -85,3 +85,15 @@ def d24_node_density_counts_the_node_itself():
 
 def match_d24(v):
     return v.get('check') == 'C17.node_density' and v.get('d24') is True
+
+
+def d19_self_loop_in_temporal_dag():
+    import dynetx.algorithms as al
+    g = dn.DynGraph()
+    g.add_interaction(1, 1, 0)
+    dag = al.temporal_dag(g, 1)[0]
+    return dag.has_edge('1_0', '1_0')
+
+
+def match_d19(v):
+    return v.get('check', '').endswith('.selfloop')
